@@ -461,6 +461,23 @@ func c32LinScenarios() []c32LinScenario {
 			func(h *c32Hist, c int, k func(int, int) c32Key) { t := h.bind(c, k(1, 1), 0); h.finish(c, t) },
 		},
 	})
+	// a finished delivery, two overlapping re-deliveries that are both rolled back, and the
+	// session closing: whatever the order, the close (or, if it came too early to see the
+	// identity, nothing) owns the finished delivery; a rollback never releases it
+	for _, limit := range []int{0, 1} {
+		out = append(out, c32LinScenario{
+			name: fmt.Sprintf("lin-rollback-of-finished-vs-close-shards2-limit%d", limit), shards: 2, limit: limit, sess: sessAB,
+			ops: "setup: A1 finished | T1: bind A1, cancel own | T2: bind A1, cancel own | T3: close A, bind A2",
+			setup: func(h *c32Hist, k func(int, int) c32Key) {
+				h.finish(0, h.bind(0, k(0, 0), 0))
+			},
+			threads: [3]func(*c32Hist, int, func(int, int) c32Key){
+				func(h *c32Hist, c int, k func(int, int) c32Key) { t := h.bind(c, k(0, 0), 0); h.cancel(c, t) },
+				func(h *c32Hist, c int, k func(int, int) c32Key) { t := h.bind(c, k(0, 0), 0); h.cancel(c, t) },
+				func(h *c32Hist, c int, k func(int, int) c32Key) { h.closeSession(c, sessAB[0]); h.bind(c, k(0, 1), 0) },
+			},
+		})
+	}
 	// the per-session limit: admission depends on what is outstanding at that instant
 	out = append(out, c32LinScenario{
 		name: "lin-session-limit1-shards1", shards: 1, limit: 1, sess: sessAB,
